@@ -57,7 +57,8 @@ func newDoT() *TLSPacketConn {
 	return &TLSPacketConn{QueuePacketConn: queuepacketconn.NewQueuePacketConn(queuepacketconn.DummyAddr{}, 0)}
 }
 
-// drain reads the messages recvLoop queued: n of them if n >= 0, otherwise until nothing arrives for 300 ms
+// drain reads the messages recvLoop queued: n of them if n >= 0, otherwise until nothing arrives for 1.5 s
+// (they are queued before recvLoop returns; the wait only covers scheduling delays under load)
 func drain(c *TLSPacketConn, n int) []string {
 	out := []string{}
 	for n < 0 || len(out) < n {
@@ -70,9 +71,9 @@ func drain(c *TLSPacketConn, n int) []string {
 				ch <- pkt{buf[:k]}
 			}
 		}()
-		wait := 300 * time.Millisecond
+		wait := 1500 * time.Millisecond
 		if n >= 0 {
-			wait = 3 * time.Second
+			wait = 20 * time.Second
 		}
 		select {
 		case p := <-ch:
@@ -116,7 +117,7 @@ func dotRoundTrip(c vcase, r *vres) {
 		select {
 		case p := <-sendPanic:
 			r.Panic = p
-		case <-time.After(2 * time.Second):
+		case <-time.After(20 * time.Second):
 		}
 	}
 	a.Close()
@@ -126,7 +127,7 @@ func dotRoundTrip(c vcase, r *vres) {
 		if err != nil {
 			r.Err = err.Error()
 		}
-	case <-time.After(2 * time.Second):
+	case <-time.After(20 * time.Second):
 		r.Err = "recvLoop did not return"
 	}
 	rec.mu.Lock()
@@ -154,7 +155,7 @@ func dotRecv(c vcase, r *vres) {
 				r.Err = "unexpected EOF"
 			}
 		}
-	case <-time.After(3 * time.Second):
+	case <-time.After(20 * time.Second):
 		r.Err = "recvLoop did not return"
 	}
 	r.Msgs = drain(recvr, -1)
